@@ -144,6 +144,9 @@ type Case struct {
 	FPDescrH uint64            `json:"fp_descr_h,omitempty"`
 	FPOut    uint64            `json:"fp_out,omitempty"`
 	// process death / cross-check of the pipelined run against the stage-by-stage run
+	QTmpl      string `json:"qtmpl,omitempty"` // query with placeholders for the comparison thresholds (generator only)
+	ThI        string `json:"th_i,omitempty"`
+	ThO        string `json:"th_o,omitempty"`
 	CrashStage int    `json:"crash_stage"`
 	CrashTrace string `json:"crash_trace,omitempty"` // planner types named in the stack trace of the dying process
 	Pipelined  string `json:"pipelined,omitempty"`
@@ -1112,6 +1115,61 @@ func mkPools(r *rand.Rand, n int) *pools {
 	return p
 }
 
+func instantiate(c *Case) string {
+	return strings.Replace(strings.Replace(c.QTmpl, "\x01", c.ThI, 1), "\x02", c.ThO, 1)
+}
+
+// adapt moves the thresholds of the comparison stages onto values that actually reach them (the boundary between
+// >= and >, <= and <, == and != is otherwise hit too rarely); true when the query changed and must be run again
+func adapt(c *Case) bool {
+	if c.QTmpl == "" || c.ID%4 == 0 {
+		return false
+	}
+	changed := false
+	seenAggOp := false
+	for i, st := range c.Chain {
+		if st.K == "agg_op" {
+			seenAggOp = true
+		}
+		if st.K != "comparison" || i == 0 || i-1 >= len(c.Stages) {
+			continue
+		}
+		cur := funhex(st.Val)
+		var cand []string
+		hit := false
+		for _, e := range c.Stages[i-1] {
+			if e.Err != "" {
+				continue
+			}
+			v := funhex(e.Val)
+			if v == cur {
+				hit = true
+			}
+			t := strconv.FormatFloat(v, 'f', -1, 64)
+			if v >= 0 && len(t) <= 8 && !strings.ContainsAny(t, "eE") {
+				cand = append(cand, t)
+			}
+		}
+		if hit || len(cand) == 0 {
+			continue
+		}
+		t := cand[(c.ID/4)%len(cand)]
+		if !seenAggOp && strings.Contains(c.QTmpl, "\x01") {
+			c.ThI = t
+		} else if strings.Contains(c.QTmpl, "\x02") {
+			c.ThO = t
+		} else {
+			continue
+		}
+		changed = true
+	}
+	if changed {
+		c.Query = instantiate(c)
+		c.Class += "+adapted"
+	}
+	return changed
+}
+
 func genCase(r *rand.Rand, id int, pl *pools) Case {
 	c := Case{ID: id}
 	gp := genPlan{}
@@ -1170,17 +1228,21 @@ func genCase(r *rand.Rand, id int, pl *pools) Case {
 			durS = []int64{1, 2, 4, 8}[r.Intn(4)]
 		}
 		cmpI := ""
-		if r.Intn(4) == 0 {
-			cmpI = " " + pick(r, []string{">", ">=", "<", "<=", "==", "!="}) + " " + pick(r, []string{"1", "2", "0.5", "3"})
+		if r.Intn(3) == 0 {
+			// thresholds that bucket counts and small sums actually take: the boundary of >= / > and <= / < must be hit
+			cmpI = " " + pick(r, []string{">", ">=", "<", "<=", "==", "!="}) + " \x01"
+			c.ThI = pick(r, []string{"1", "1", "2", "2", "0.5", "3"})
 		}
 		q := fn + "(" + sel + inner + " [" + strconv.FormatInt(durS, 10) + "s])" + bwInner + cmpI
 		if agg {
-			if r.Intn(4) == 0 {
-				cmpO = " " + pick(r, []string{">", ">=", "<", "<=", "==", "!="}) + " " + pick(r, []string{"1", "2", "3"})
+			if r.Intn(3) == 0 {
+				cmpO = " " + pick(r, []string{">", ">=", "<", "<=", "==", "!="}) + " \x02"
+				c.ThO = pick(r, []string{"1", "1", "2", "3"})
 			}
 			q = aggFn + bwOuter + " (" + q + ")" + cmpO
 		}
-		c.Query = q
+		c.QTmpl = q
+		c.Query = instantiate(&c)
 	} else {
 		c.Query = sel + pipe
 	}
@@ -1378,6 +1440,9 @@ func main() {
 			c = genCase(r, i, pl)
 		}
 		run(&c)
+		if c.Mode != "fp" && adapt(&c) {
+			run(&c)
+		}
 		out.Put(c)
 	}
 }
